@@ -37,6 +37,15 @@ theorem C04_param_stored_returned (ty : FieldTy) (nullable : Bool) (v s : Scalar
   subst hs
   exact ⟨rfl, readJson_jsonText s ht⟩
 
+/-- **C04 (no other field).** Updating a row through a mutation that assigns some fields leaves every other
+    field of the row as it was — whatever the row holds (no text at all, empty strings, nulls, absent fields)
+    — and a field that is assigned reads back as the assigned value. -/
+theorem C04_update_keeps_other_fields (row : RowVals) (sets : List (Nat × Scalar)) (k : Nat)
+    (h : ∀ p ∈ sets, p.1 ≠ k) :
+    (applyUpdate row sets)[k]? = row[k]? ∧
+    ∀ (j : Nat) (v : Scalar), j < row.length → (applyUpdate row [(j, v)])[j]? = some (some v) :=
+  ⟨applyUpdate_other row sets k h, fun j v hj => setField_same row j v hj⟩
+
 /-! ## Literals -/
 
 /-- **C04 (literals, intended behaviour).** With the literal decoding as it should be, the value of a
@@ -215,6 +224,9 @@ example : admitParam .string false (.str "x'y".toList) = .ok (.str "x'y".toList)
     (Scalar.str "x'y".toList).transparent = true := ⟨rfl, rfl⟩
 
 example : admitParam .integer true .null = .ok .null := rfl
+
+example : readRow (applyUpdate [some (.int 1), some (.float 4602678819172646912 "0.5".toList), some (.bool true), none] [(0, .int 2)])
+    = [.int 2, .float 4602678819172646912 "0.5".toList, .bool true, .null] := by decide
 
 example : (witnessQuery "plain".toList).splices "plain".toList ∧ (Tok.quoted "plain".toList).closed = true :=
   ⟨Or.inl ⟨_, List.mem_singleton.mpr rfl, rfl⟩, by decide⟩
